@@ -11,13 +11,19 @@ MANIFEST = dict(
     text=("Lean: the editing calls are mirrored on the pointer heap (Model/Heap.lean) and their effect on the forest "
           "(children lists / parent) is proved against the list-of-lists specification: extract removes exactly the element from "
           "its parent's list and detaches it with its subtree intact, _insert places the element at the clamped slot (with the "
-          "same-parent index correction), nothing else moves, no element is duplicated or lost (see evidence 'theorems'). "
+          "same-parent index correction), nothing else moves, no element is duplicated or lost; the further calls are derived from the two "
+          "(append/extend/insert_before/insert_after/replace_with/wrap/unwrap/clear/.string=), smooth() is proved to turn every maximal run "
+          "of adjacent plain strings among the children of every tag of the subtree into one new string, the concatenation, leaving every "
+          "other child the same object in the same place (squash/squashId) and never to fail, decompose() / clear(decompose=True) to destroy "
+          "exactly the subtree (see evidence 'theorems'). "
           "Tie: after every call of generated histories and of the exhaustive small-scope enumeration (thorough), the real "
           ".contents nesting is compared by identity with an independent Python list-of-lists model of the documented effect and "
-          "with the Lean model."),
+          "with the Lean model; for smooth() the children of every tag of the subtree, by identity and text, are compared with the Lean "
+          "specification function squashId on trees with runs of strings (empty strings, NavigableString subclasses, Comment/CData between them)."),
     design="7/C02",
-    note=("Negative positions are outside the modelled domain (DESIGN.md C02). Calls that would put an element beneath itself are "
-          "outside the quantifier."),
+    note=("Positions are any Python integers (negative ones read as list.insert does, Model/Heap.lean normPos). Calls that would put an "
+          "element beneath itself are outside the quantifier. Repeated arguments inside one multi-argument call are carried by the "
+          "differential check against the independent Python spec only."),
     technique="Lean 4 refinement proof (pointer procedures vs list-of-lists forest) + per-call differential correspondence with an independent spec",
 )
 
